@@ -345,16 +345,17 @@ def case_derive(o, c, sp, rnd):
     elif kind == 'ecdh':
         own, peer = K['ec'][sp['curve']]
         if sp['peer'] == 'random': peer = R.ECKey(own.c, rnd.randrange(1, own.c.n))
-        elif sp['peer'] in (1, 2): peer = KF.leadz_peers()['ec'][sp['curve']][sp['peer']]
+        elif sp['peer'] in (1, 2, 'der-short', 'der-long'): peer = KF.leadz_peers()['ec'][sp['curve']][sp['peer']]
         want = own.ecdh(peer.Q); pub = peer.point(); pub = R.der_octets(pub) if sp['enc'] == 'der' else pub; mname = 'CKM_ECDH1_DERIVE'; cls = mname + ':' + sp['curve']
         g = o.derive(x.M(mname, ecdh1={'kdf': ck.CKD_NULL, 'public': pub.hex()}), o.t.ec_priv(own), tm)
     else:
         own, peer = K['x'][sp['curve']]
         if sp['peer'] == 'random': peer = R.XKey(sp['curve'], rb(rnd, len(own.sk)))
-        elif sp['peer'] in ('lead', 'trail'): peer = KF.leadz_peers()['x'][sp['curve']][sp['peer']]
+        elif sp['peer'] in ('lead', 'trail', 'der-short'): peer = KF.leadz_peers()['x'][sp['curve']][sp['peer']]
         want = own.derive(peer.pk); pub = R.der_octets(peer.pk) if sp['enc'] == 'der' else peer.pk; mname = 'CKM_ECDH1_DERIVE'; cls = mname + ':' + sp['curve']
         g = o.derive(x.M(mname, ecdh1={'kdf': ck.CKD_NULL, 'public': pub.hex()}), o.t.x_priv(own, sp.get('oid', False)), tm)
     if sp['peer'] in (1, 2, 'lead', 'trail'): cls += ':zero-byte-at-end-of-secret'
+    if str(sp['peer']).startswith('der-'): cls += ':raw-public-value-looks-like-a-DER-header'
     if g[0] != 'CKR_OK': c.V('C_DeriveKey', cls, 'failed:' + g[0], 'the token failed to derive a shared secret from a valid peer value', spec2=sp)
     elif g[1] != want: c.V('C_DeriveKey', cls, 'differs-from-reference', 'the derived shared secret differs from the independent implementation', got=g[1], want=want)
     else: c.ok()
@@ -507,11 +508,11 @@ def specs(ctx, rnd, thorough):
         for peer in ['fixed', 1, 2] + ['random'] * (6 if q else 12): add(fam='derive', mech='CKM_DH_PKCS_DERIVE', kind='dh', group=g, peer=peer)
     for cv in R.CURVES:
         for enc in ('raw', 'der'):
-            for peer in ['fixed', 1, 2] + ['random'] * (5 if q else 10): add(fam='derive', mech='CKM_ECDH1_DERIVE', kind='ecdh', curve=cv, enc=enc, peer=peer)
+            for peer in ['fixed', 1, 2] + sorted(KF.DERLIKE['ec'].get(cv, {})) + ['random'] * (5 if q else 10): add(fam='derive', mech='CKM_ECDH1_DERIVE', kind='ecdh', curve=cv, enc=enc, peer=peer)
     for cv in R.XBASE:
         for enc in ('raw', 'der'):
             for oid in (False, True):
-                for peer in ['fixed', 'lead', 'trail'] + ['random'] * (3 if q else 6): add(fam='derive', mech='CKM_ECDH1_DERIVE', kind='x', curve=cv, enc=enc, oid=oid, peer=peer)
+                for peer in ['fixed', 'lead', 'trail'] + sorted(KF.DERLIKE['x'].get(cv, {})) + ['random'] * (3 if q else 6): add(fam='derive', mech='CKM_ECDH1_DERIVE', kind='x', curve=cv, enc=enc, oid=oid, peer=peer)
     return S
 
 COST = {'rsa_sign': 6, 'rsa_enc': 4, 'dsa': 8, 'ecdsa': 6, 'eddsa': 8, 'derive': 3}
